@@ -164,6 +164,9 @@ def label_case_failures(sym, la, lb, st=None):
             continue
         if st is not None:
             st.transitions += 1
+        got_labels = oddpos_key(c)
+        if list(got_labels) != sorted(got_labels, key=RG.label_key):
+            fails.append(("C04/labels/not-sorted", f"{la} x {lb}: remaining labels {got_labels} are not in the documented order"))
         conj_pairs = any(l1 == l2 for (l1, _), (l2, _) in itertools.product(la, lb))
         if not conj_pairs:
             # no conjugate labels: the sorted label tuple is unique
